@@ -8,7 +8,7 @@ modelled).
 
 Part 1: exactness and remainder identities of the difference formulas as they are written in the
 sources (`d1Two`, `d1Three`, `d2Three`, `crossThree`, `d1Five`, `d2Five`, `d1Side`, `d2Side` are the
-expressions of Two:90, Three:132-133, Three:198, Five:63-64, Five:75-76/88-89).
+expressions of Two:93, Three:137-138, Three:202, Five:63-64, Five:75-76/90-91).
 -/
 namespace Bpp.C12
 open Bpp Bpp.NumDeriv
@@ -855,7 +855,7 @@ and the derivatives it stores are the finite-difference formula of that path eva
 requested point; on an `f` that is a cubic in `v` the stored values are given in closed form, which
 shows the degree each formula differentiates exactly. -/
 
-/-- five-point scheme, backward one-sided formulas (Five:68-76): `x - 2H` accepted, `x + 2H` refused,
+/-- five-point scheme, backward one-sided formulas (Five:66-77): `x - 2H` accepted, `x + 2H` refused,
 `x - H` accepted.  Stored: `(f(x) - f(x-H)) / H` and `(f(x) - 2 f(x-H) + f(x-2H)) / H²`.  On a cubic
 `a₀ + a₁t + a₂t² + a₃t³` the second derivative is off by `-6 a₃ H` (exact on degree ≤ 2), the first
 one, for `a₃ = 0`, by `-a₂ H` (exact on degree ≤ 1). -/
@@ -904,7 +904,7 @@ theorem five_point_backward_stored (f : List ℝ → ℝ) (w : W ℝ) (params : 
     field_simp
     ring
 
-/-- five-point scheme, forward one-sided formulas (Five:81-89): `x - 2H` refused, `x + H` and `x + 2H`
+/-- five-point scheme, forward one-sided formulas (Five:82-92): `x - 2H` refused, `x + H` and `x + 2H`
 accepted.  Stored: `(f(x+H) - f(x)) / H` and `(f(x+2H) - 2 f(x+H) + f(x)) / H²`.  On a cubic the second
 derivative is off by `+6 a₃ H` (exact on degree ≤ 2), the first one, for `a₃ = 0`, by `+a₂ H` (exact
 on degree ≤ 1). -/
